@@ -10,6 +10,10 @@ THEOREMS = ["Fteik.C07_nsweep_only_iterates_2d", "Fteik.C07_solve2d_monotone",
             "Fteik.C07_status_independent_2d", "Fteik.C07_fixed_forever_2d",
             "Fteik.C07_nsweep_only_iterates_3d", "Fteik.C07_solve3d_monotone",
             "Fteik.C07_fixed_forever_3d",
+            "Fteik.C07_sweeps_reach_fixed_point_2d", "Fteik.C07_solve2d_converges", "Fteik.C07_solve2d_converges_float",
+            "Fteik.C07_sweeps_reach_fixed_point_3d", "Fteik.C07_solve3d_converges", "Fteik.C07_solve3d_converges_float",
+            "Fteik.C07_solve2d_monotone_float", "Fteik.C07_solve3d_monotone_float",
+            "Fteik.ltTrans_float", "Fteik.ltIrrefl_float", "Fteik.ltWf_float", "Fteik.Grid2.stabilises", "Fteik.Grid3.stabilises",
             "Fteik.Generated.shapeFacts_all", "Fteik.Generated.sched2_matches_model",
             "Fteik.Generated.sched3_matches_model"]
 NEEDED_FACTS = ["sweep.single_tt_store", "sweep.store_is_min_with_old", "no_array_store",
@@ -91,7 +95,7 @@ def run(tier):
     for k, v in facts.items():
         if not v and any(k.endswith(n) for n in NEEDED_FACTS):
             ck.tie_broken("extract", k, "schema fact no longer holds in the source")
-    ck.lean(["FteikVerif.Props.C07", "FteikVerif.Generated.Shape"], THEOREMS)
+    ck.lean(["FteikVerif.Props.C07", "FteikVerif.Props.C07Converge", "FteikVerif.Generated.Shape"], THEOREMS)
     # extractor validation + schema on traces (interpreter mode)
     n = 10 if tier == "quick" else 60
     tr = cases(r, n)
@@ -126,10 +130,17 @@ def run(tier):
                  "nsweep only selects the number of iterations of sweepNd over a state prepared independently of it",
                  "a state fixed by one sweep is fixed by all further sweeps",
                  "the source's update is `min(old, …)` / its schedule equals the model's (regenerated from the AST)"]
-    ck.not_proved = ["existence of the fixed point after finitely many sweeps (needs well-foundedness of < on doubles) "
-                     "and 'single digits in practice': measured by the oracle sweep (histogram in coverage)"]
-    ck.assumptions = ["IEEE '<' on doubles is transitive (LtTrans Float)",
-                      "the extractor reads the AST correctly (validated on interpreter-mode traces each run)"]
+    ck.proved += ["after finitely many sweeps further sweeps leave the traveltime grid bit-identical (2D, 3D): for every scalar "
+                  "type with a transitive, well-founded '<', and unconditionally for the IEEE-double instance of the model - "
+                  "irreflexivity, transitivity and well-foundedness of '<' on Lean's Float are proved from its logical model",
+                  "the body of `sweep` re-translated from the source stores min(old, ...) at its node and nothing else "
+                  "(no hypotheses)"]
+    ck.not_proved = ["'single digits in practice' (the number of sweeps to the fixed point): measured by the oracle sweep "
+                     "(histogram in coverage)"]
+    ck.assumptions = ["the compiled Float operations agree with Lean's logical Float model (contract of Lean's runtime); the "
+                      "running code's doubles are IEEE binary64",
+                      "the extractor / translator read the AST correctly (validated on interpreter-mode traces and by the "
+                      "three-way kernel differential each run)"]
     return ck.finish()
 
 
